@@ -35,7 +35,7 @@ impl Check for C09 {
     }
     fn runs(&self, tier: Tier) -> u64 {
         match tier {
-            Tier::Quick => 300_000,
+            Tier::Quick => 600_000,
             Tier::Thorough => 15_000_000,
         }
     }
